@@ -193,6 +193,55 @@ def translate():
                        txt.replace('(', ' ').replace(')', ' ').replace('.', ' ').replace(':', ' ').split()):
                 fail(src, rest, '%s.inner: unexpected statement after `inner = E`' % cls)
         out.append('Definition gen_%s_inner : wexpr := %s.' % (nm, t.expr(first.value)))
+    # ---------------- default kernels: which formula for which dtype / size regime
+    def kernel_tree(n):
+        """if/else tree over (is_real_dtype(x1.dtype), x1.size > THRESHOLD_MEDIUM) with return-leaves"""
+        if isinstance(n, list):
+            if len(n) != 1:
+                fail(src, n[0] if n else None, '_inner_default: expected a single statement per branch')
+            n = n[0]
+        if isinstance(n, ast.If):
+            txt = ast.unparse(n.test)
+            if txt == 'is_real_dtype(x1.dtype)':
+                c = 'KIsReal'
+            elif txt == 'x1.size > THRESHOLD_MEDIUM':
+                c = 'KIsLarge'
+            else:
+                fail(src, n, '_inner_default: unknown condition')
+            return '(KIf %s %s %s)' % (c, kernel_tree(n.body), kernel_tree(n.orelse))
+        if isinstance(n, ast.Return):
+            txt = ast.unparse(n.value)
+            if txt == 'np.tensordot(x1, x2, [range(x1.ndim)] * 2)':
+                return '(KLeaf KBilinear)'          # sum(x1 * x2), no conjugation
+            if txt == 'np.dot(x1.data.ravel(order), x2.data.ravel(order))':
+                return '(KLeaf KBilinear)'
+            if txt == 'np.vdot(x2.data.ravel(order), x1.data.ravel(order))':
+                return '(KLeaf KConjSecond)'        # sum(x1 * conj(x2))
+            if txt == 'np.vdot(x1.data.ravel(order), x2.data.ravel(order))':
+                return '(KLeaf KConjFirst)'
+        fail(src, n, '_inner_default: statement outside the grammar')
+    f = _find(tree, None, '_inner_default')
+    body = _strip_doc(f.body)
+    if len(body) != 2 or ast.unparse(body[0]) != \
+            "order = 'F' if all((a.data.flags.f_contiguous for a in (x1, x2))) else 'C'":
+        fail(src, body[0] if body else None, '_inner_default: expected `order = ...` then one if tree')
+    out.append('Definition gen_inner_default : ktree := %s.' % kernel_tree(body[1]))
+    # _norm_default / _pnorm_default: empty guard, then nrm2 (BLAS) or np.linalg.norm of the raveled data
+    f = _find(tree, None, '_norm_default')
+    body = [ast.unparse(b) for b in _strip_doc(f.body)]
+    want = ['import scipy.linalg', 'if x.data.size == 0:\n    return 0.0',
+            "if _blas_is_applicable(x.data):\n    nrm2 = scipy.linalg.blas.get_blas_funcs('nrm2', dtype=x.dtype)\n"
+            "    norm = partial(nrm2, n=native(x.data.size))\nelse:\n    norm = np.linalg.norm",
+            'return norm(x.data.ravel())']
+    if body != want:
+        fail(src, f, '_norm_default: body changed')
+    f = _find(tree, None, '_pnorm_default')
+    body = [ast.unparse(b) for b in _strip_doc(f.body)]
+    if body != ['if x.data.size == 0:\n    return 0.0', 'return np.linalg.norm(x.data.ravel(), ord=p)']:
+        fail(src, f, '_pnorm_default: body changed')
+    out.append('(* _norm_default = 2-norm of all entries (nrm2 / np.linalg.norm), _pnorm_default = p-norm of all')
+    out.append('   entries, both 0 on empty data: bodies compared verbatim by the translator *)')
+    out.append('Definition gen_norm_kernels_verbatim : bool := true.')
     # ---------------- product spaces
     src = 'odl/space/pspace.py'
     tree = ast.parse(open(os.path.join(REPO, src)).read())
